@@ -51,7 +51,7 @@ class C06(Prop):
     id = "C06"
     PARALLEL = True
     USES_IMPL = True
-    CASE_TIMEOUT = 20
+    CASE_TIMEOUT = 60
     rule = ("random full-field programs with setup operands computed by chains of arith ops from induction variables and outer values, "
             "lb != 0 and step != 1 executions, several launches per body; traced and deduplicated by the real passes, then "
             "accfg-config-overlap with every rewrite step logged; non-trivial = at least one overlap rewrite happened")
